@@ -161,7 +161,7 @@ def spaces(tier, variant, seed):
         th = rt.parse_mparam(os.path.join(lib.META["dir"], "gmp-mparam.h"))
         for t in (th.get("redc_1_to_redc_n_threshold", 100), th.get("powm_threshold", 146), th.get("mul_karatsuba_threshold", 17), th.get("sqr_karatsuba_threshold", 24)):
             for d in (-1, 0, 1):
-                if t + d > N and variant != "asan":
+                if t + d > N and variant != "asan" and t <= (160 if quick else 400):
                     ns.append(t + d)
         sp.append(Space("powm_sizes", [("pin", n) for n in sorted(set(ns))], sz_cases, sz_one,
                         "modulus sizes %s limbs x modulus family x exponent family (window edges) x base family" % sorted(set(ns))))
